@@ -225,6 +225,7 @@ func cmdCheck(args []string) int {
 	var jobSummaries []map[string]interface{}
 	broken := false
 	var confDiv []string
+	detDiff := ""
 	for ji, j := range jobs {
 		shards := *procs
 		if j.Shards > 0 {
@@ -284,6 +285,9 @@ func cmdCheck(args []string) int {
 			}
 			if !r.DeterminismOK {
 				total.DeterminismOK = false
+				if r.DeterminismDiff != "" && detDiff == "" {
+					detDiff = j.Name + ": " + r.DeterminismDiff
+				}
 			}
 			for k, v := range r.Outcomes {
 				total.Outcomes[k] += v
@@ -400,7 +404,7 @@ func cmdCheck(args []string) int {
 		nontrivial += v
 	}
 	if !total.DeterminismOK {
-		fmt.Println("HARNESS-ERROR determinism self-check failed (same schedule, different digests)")
+		fmt.Println("HARNESS-ERROR determinism self-check failed: the same operation on the same state gave different results depending on what ran before it on discarded branches (state outside the store?)", detDiff)
 		broken = true
 	}
 	if c.Level == "model_checking" && (total.States < 2 || total.Transitions < 2) {
